@@ -297,6 +297,14 @@ def main():
     import gen_steps
     parts = [("Layout.lean", gen_layout), ("HashOrder.lean", gen_hash_order), ("Params.lean", gen_params),
              ("Steps.lean", gen_steps.gen_steps), ("Sites.lean", gen_steps.gen_sites)]
+    if os.environ.get("JAMM_GEN_API") == "1":
+        import gen_api
+        def api():
+            try:
+                gen_api.gen_api()
+            except RuntimeError as e:
+                raise GenError(str(e))
+        parts.append(("Api.lean", api))
     failed = []
     for name, fn in parts:
         try:
